@@ -377,7 +377,7 @@ impl World for WorldG {
             guess.latest.push(*initial.last().unwrap());
             guess.installed.push(initial.clone());
             guess.approved.push(BTreeMap::new());
-            gateways.push(GwCfg { domain: rng.bytes32(), min_delay, retention, initial });
+            gateways.push(GwCfg { domain: rng.bytes32(), min_delay, retention, initial, operator_is_owner: rng.chance(1, 5) });
         }
         let npay = rng.range(2, 4) as u8;
         let payloads: Vec<PayloadSpec> = (0..npay).map(|_| PayloadSpec::gen(rng, false)).collect();
@@ -501,12 +501,15 @@ impl World for WorldG {
                     if rng.chance(1, 6) {
                         app = rng.below(2) as u8;
                     }
+                    if rng.chance(1, 12) {
+                        app += 2; // a misconfigured twin
+                    }
                     if fault {
                         match rng.below(5) {
                             0 => msg.src = (msg.src + 1) % SRCS.len() as u8,
                             1 => msg.payload = (msg.payload + 1) % npay,
                             2 => msg.id = (msg.id + 1) % IDS.len() as u8,
-                            3 => app = 1 - app,
+                            3 => app ^= 1,
                             _ => {}
                         }
                     }
